@@ -603,7 +603,7 @@ const MAXN: usize = 64;
 #[derive(Clone, Copy)]
 struct Spec {
     ty: u8,
-    behave: u8, // 0 return, 1 panic, 2 return after delivering a spurious wake-up to the own exit futex
+    behave: u8, // 0 return, 1 panic, 2 return after delivering a spurious wake-up to the own exit futex, 3/4 nested, 5 return after interrupting the main thread (SIGUSR1, no SA_RESTART) while it joins
     disp: u8,   // 0 join, 1 drop now, 2 drop later, 3 keep until the end then join, 4 drop "while finishing" (= 2 for the probe)
     inline: u8, // 1: the disposition is carried out before the next spawn
     cdk: u8,
@@ -722,6 +722,8 @@ fn body<T: Res>(c: Clo) -> T {
     }
     if c.behave == 2 {
         spurious_wake(c.i, c.cdk, c.cda);
+    } else if c.behave == 5 {
+        signal_the_joiner(c.cdk, c.cda);
     } else {
         if c.behave == 3 || c.behave == 4 {
             nested(c.i, c.behave, c.tag);
@@ -1125,9 +1127,45 @@ struct PerSpec {
     stall_obs: u8,
 }
 
+// --- a SIGUSR1 handler that does NOT restart system calls (the repository's own helper always sets SA_RESTART):
+// a signal that reaches a thread parked in a futex wait makes that wait return EINTR ---
+core::arch::global_asm!(".text", ".global __verif_sigrestorer", ".type __verif_sigrestorer,@function", "__verif_sigrestorer:", "mov rax, 15", "syscall",);
+extern "C" {
+    fn __verif_sigrestorer();
+}
+#[repr(C)]
+struct KSigaction {
+    handler: usize,
+    flags: u64,
+    restorer: usize,
+    mask: u64,
+}
+static SIGNALS_SEEN: AtomicU32 = AtomicU32::new(0);
+unsafe extern "C" fn on_sigusr1(_sig: i32) {
+    SIGNALS_SEEN.fetch_add(1, SeqCst);
+}
+fn install_sigusr1() {
+    const SA_RESTORER: u64 = 0x0400_0000;
+    let act = KSigaction { handler: on_sigusr1 as *const () as usize, flags: SA_RESTORER, restorer: __verif_sigrestorer as *const () as usize, mask: 0 };
+    unsafe { sc::syscall!(RT_SIGACTION, 10usize, &act as *const KSigaction, 0usize, 8usize) };
+}
+
+/// behave 5: once the main thread has had time to park in its join, interrupt it with a signal (three times, 150 us
+/// apart), then keep working for the configured delay before returning
+fn signal_the_joiner(kind: u8, amt: u32) {
+    let pid = unsafe { sc::syscall!(GETPID) };
+    let main_tid = MAIN_TID.load(SeqCst) as usize;
+    for _ in 0..3 {
+        sleep_ns(150_000);
+        unsafe { sc::syscall!(TGKILL, pid, main_tid, 10usize) };
+    }
+    delay(kind, amt);
+}
+
 #[no_mangle]
 pub fn main() -> i32 {
     MAIN_TID.store(gettid(), SeqCst);
+    install_sigusr1();
     // reserve: a 6 MiB free chunk pinned below a live block, so that the batches are served without the
     // allocator growing or trimming its segments (keeps VmSize comparable between batches). Small blocks are
     // allocated (and kept) until one sits directly above the big block; whether the reserve survived the free
